@@ -19,6 +19,24 @@ def erase_group_object(j, top=True):
     return j
 
 
+def to_new(v, top=True):
+    """the same content in the second container family (pvl.new): PVLMultiDict based"""
+    from pvl.collections import PVLModuleNew, PVLGroupNew, PVLObjectNew
+    if isinstance(v, io.OrderedMultiDict):
+        cls = PVLModuleNew if isinstance(v, PVLModule) else PVLGroupNew if isinstance(v, PVLGroup) else PVLObjectNew
+        return cls([(k, to_new(x, False)) for k, x in list(v)])
+    return v
+
+
+def snap(v):
+    """structural snapshot of either container family, in the form py_to_j gives for the first"""
+    from pvl.collections import PVLMultiDict, PVLModuleNew, PVLGroupNew
+    if isinstance(v, PVLMultiDict):
+        k = "M" if isinstance(v, PVLModuleNew) else "G" if isinstance(v, PVLGroupNew) else "O"
+        return {"t": "C", "k": k, "v": [[[ord(c) for c in kk], snap(x)] for kk, x in list(v.items())]}
+    return io.py_to_j(v)
+
+
 def run(ctx):
     lean = core.standard_lean_phase(ctx, PROP_MODULES)
     drv = core.Driver()
@@ -43,13 +61,21 @@ def run(ctx):
             before = io.py_to_j(m)
             line = encio.model_line(enc, cfg, m)
             e = encio.make_encoder(enc, cfg)
+            if i % 3 == 2:
+                # the second container family, with the encoder told about it as pvl.new.dumps does
+                from pvl.collections import PVLGroupNew, PVLObjectNew
+                m = to_new(m)
+                if snap(m) != before:
+                    raise RuntimeError("to_new/snap do not preserve the module")
+                e = encio.make_encoder(enc, dict(cfg, group_class=PVLGroupNew, object_class=PVLObjectNew))
+                stats[enc + ":new-family"] += 1
             outs = []
             for _ in range(3):
                 try:
                     outs.append(("ok", e.encode(m)))
                 except (ValueError, TypeError) as ex:
                     outs.append(("fail", type(ex).__name__))
-            after = io.py_to_j(m)
+            after = snap(m)
             stats[enc + ":" + outs[0][0]] += 1
             why = None
             if not (outs[0] == outs[1] == outs[2]):
@@ -61,7 +87,7 @@ def run(ctx):
             if why and bad is None:
                 from .c03 import first_diff
                 bad = {"what": why + ": " + (first_diff(after, before) if after != before else str(outs)[:200]),
-                       "encoder": enc, "cfg": cfg, "module": before, "module_repr": repr(list(io.j_to_py(before)))[:800],
+                       "encoder": enc, "cfg": cfg, "family": "new" if i % 3 == 2 else "old", "module": before, "module_repr": repr(list(io.j_to_py(before)))[:800],
                        "after": after, "outs": [o if o[0] == "fail" else o[1][:300] for o in outs]}
             lines.append(line)
             expect.append((enc, cfg, before, outs[0], after))
@@ -83,7 +109,7 @@ def run(ctx):
     cov = {"evaluations": len(lines) * 3, "distinct_nontrivial": len(set(lines)),
            "rule": "%d generated modules per encoder (for PDS3 half of them with a group whose name occurs again "
                    "later), random options; encode() called three times on the same object with one encoder "
-                   "instance; structural snapshot (values, order, classes at every level) before and after; the "
+                   "instance, every third module in the pvl.new container classes; structural snapshot (values, order, classes at every level) before and after; the "
                    "model's `after` (the caller's module after the call) compared with the real one" % n,
            "outcomes": dict(stats), "samples": samples, "theorems": lean["names"], "lean_problems": lean["problems"]}
     return core.finish(ctx, "proof", lean["obligations"], lean["discharged"],
@@ -96,13 +122,17 @@ def replay(ctx, path):
         print("nothing to replay"); return 0
     m = io.j_to_py(d["module"])
     e = encio.make_encoder(d["encoder"], d["cfg"])
+    if d.get("family") == "new":
+        from pvl.collections import PVLGroupNew, PVLObjectNew
+        m = to_new(m)
+        e = encio.make_encoder(d["encoder"], dict(d["cfg"], group_class=PVLGroupNew, object_class=PVLObjectNew))
     outs = []
     for _ in range(2):
         try:
             outs.append(e.encode(m))
         except (ValueError, TypeError) as ex:
             outs.append(type(ex).__name__)
-    after = io.py_to_j(m)
+    after = snap(m)
     print(json.dumps({"same_text": outs[0] == outs[1], "after": after}, indent=1)[:2000])
     if outs[0] != outs[1] or erase_group_object(after) != erase_group_object(d["module"]):
         print("VIOLATION property=C13 replay=%s" % path)
